@@ -82,6 +82,8 @@ func runHistory(r *core.Run, cid string, L int) {
 			}
 		}
 	}
+	m.foreignEmitter()
+	m.multiSendV(5, 1)
 	for i := 0; i < L; i++ {
 		x := rng.Intn(100)
 		switch {
@@ -89,8 +91,10 @@ func runHistory(r *core.Run, cid string, L int) {
 			m.validSend()
 		case x < 57:
 			m.invalidSend()
-		case x < 60:
+		case x < 58:
 			m.hookProbe()
+		case x < 60:
+			m.foreignEmitter()
 		case x < 66:
 			m.multiSend()
 		case x < 70:
@@ -349,7 +353,9 @@ func (m *mon) directSendPacket(src, dst *core.Node) {
 
 // multiSend: one EVM transaction performing two native-coin sends through a
 // contract; variants make the second one fail in the EVM or in the hook.
-func (m *mon) multiSend() {
+func (m *mon) multiSend() { m.multiSendV(-1, -1) }
+
+func (m *mon) multiSendV(forceVariant, forceCtor int) {
 	s := m.s
 	src, dst := s.RandNodePair()
 	nat := s.Tokens[len(s.Tokens)-1]
@@ -366,7 +372,10 @@ func (m *mon) multiSend() {
 		data, _ := core.EndpointABI.Pack("crossChainCall", d, packettypes.Fee{TokenAddress: core.ZeroAddr, Amount: big.NewInt(0)})
 		return core.Step{Kind: core.KindCall, Target: core.EndpointAddr, Data: data, Value: uint64(amount), MustOK: true, ThenStore: 7}
 	}
-	variant := s.Rng.Intn(5)
+	variant := s.Rng.Intn(7)
+	if forceVariant >= 0 {
+		variant = forceVariant
+	}
 	var steps []core.Step
 	what := "multi/"
 	switch variant {
@@ -392,6 +401,23 @@ func (m *mon) multiSend() {
 		st := mk(dst.Name, 11)
 		steps = []core.Step{st, st}
 		what += "two-identical"
+	default:
+		// one send made by a contract (the only shape of this family that succeeds: a second send in the same transaction
+		// carries the same sequence, because the contract's counter is advanced by the module after the transaction)
+		steps = []core.Step{mk(dst.Name, 11)}
+		what += "single"
+	}
+	if ctor := s.Rng.Intn(2); forceCtor == 1 || (forceCtor < 0 && ctor == 0) {
+		// the same calls made by a constructor: a create transaction (no recipient) whose init code is the call list and
+		// whose value funds it. Sends made while a contract is being deployed are sends like any other.
+		what = "constructor-" + what
+		tx, err := src.EthTx(s.RandUser(), nil, big.NewInt(1000), 5_000_000, core.Multicall(steps))
+		if err != nil {
+			return
+		}
+		o := s.DeliverEth(src, what, tx)
+		m.observeSend(src, what, o, pkt.SendSpec{Src: src, Dst: dst, User: s.W.Admin})
+		return
 	}
 	addr, err := src.DeployRuntime(s.W.Admin.Eth, core.Multicall(steps))
 	if err != nil {
@@ -407,6 +433,44 @@ func (m *mon) multiSend() {
 		return
 	}
 	o := s.DeliverEth(src, what, tx)
+	m.observeSend(src, what, o, pkt.SendSpec{Src: src, Dst: dst, User: s.W.Admin})
+}
+
+// foreignEmitter: an ordinary account deploys a contract that emits a byte-exact PacketSent(bytes) log for the packet that
+// would be next on a path (right source, known destination, next sequence) and calls it in a real transaction. Only the
+// packet contract's own logs are sends: nothing may be numbered, committed or announced for it.
+func (m *mon) foreignEmitter() {
+	s := m.s
+	src, dst := s.RandNodePair()
+	p := packettypes.Packet{SrcChain: src.Name, DstChain: dst.Name, Sequence: m.nextOf(key(src, dst.Name)), Sender: pkt.LowerHex(s.RandUser().Eth), TransferData: []byte{}, CallData: []byte{1}, CallbackAddress: "", FeeOption: 0}
+	bz, err := p.ABIPack()
+	if err != nil {
+		return
+	}
+	ev := core.PacketABI.Events[packettypes.PacketSendEvent]
+	data, err := ev.Inputs.Pack(bz)
+	if err != nil {
+		return
+	}
+	addr, err := src.DeployRuntime(s.RandUser().Eth, core.Emitter([]common.Hash{ev.ID}, data))
+	if err != nil {
+		return
+	}
+	tx, err := src.EthTx(s.RandUser(), &addr, nil, 1_000_000, []byte{})
+	if err != nil {
+		return
+	}
+	what := "look-alike-PacketSent-from-a-user-contract"
+	o := s.DeliverEth(src, what, tx)
+	if o.OK() {
+		found := false
+		for _, l := range o.Eth.Logs {
+			found = found || (l.Address == addr && len(l.Topics) == 1 && l.Topics[0] == ev.ID)
+		}
+		if found {
+			m.r.Count("look_alike_logs_emitted_by_user_contracts", 1)
+		}
+	}
 	m.observeSend(src, what, o, pkt.SendSpec{Src: src, Dst: dst, User: s.W.Admin})
 }
 
